@@ -137,6 +137,9 @@ def run(ctx):
                 "twins without a hard error (bisected to the single query).  Non-trivial = rejecting probes and trait queries on mismatched pairs.")
     ctx.assumptions += ["g++ 12 / clang++ 14 accept/reject verdicts are the observable", "unit definitions are inputs (catalogue)"]
     cat, pre = unitcat.extract(ctx)
+    for b in unitcat.check_base_dims(ctx, cat):
+        ctx.violation({"kind": "base units share a dimension", "unit": b["id"], "with": b["with"]},
+                      "the base unit %s %s: %s" % (b["id"], ("and " + b["with"]) if b["with"] else "", b["why"]), detail=b)
     for idx, names in unitcat.base_dim_collisions(ctx):
         ctx.violation({"kind": "base dimensions indistinguishable", "names": names},
                       "the distinct base dimensions %s share the index %d: products and quotients mixing them cancel, so units of different dimension become "
